@@ -303,7 +303,101 @@ def _sample(case):
                          for d in case['universe']['lexicons']]}
 
 
+@st.composite
+def _history_cases(draw):
+    u = draw(gen.universes())
+    specs = [gen.spec_of(d) for d in u['lexicons']]
+    deps = gen.universe_deps(u['lexicons'])
+    exts = [s_ for s_ in specs if deps.get(s_)]
+    steps = []
+    plain = [s_ for s_ in specs if not deps.get(s_) and s_ != 'a:1']
+    if 'x:1' in specs and plain and draw(st.integers(0, 2)) > 0:
+        # an extension is the most recently added lexicon, goes away, and a plain lexicon
+        # arrives in its place
+        later = draw(st.sampled_from(plain))
+        early = [p_ for p_ in plain if p_ != later and draw(st.booleans())]
+        steps = [['add', 'a:1']] + [['add', p_] for p_ in early] + [['add', 'x:1']]
+        if 'y:1' in specs and draw(st.booleans()):
+            steps.append(['add', 'y:1'])
+        steps += [['remove', 'x:1'], ['add', later]]
+    for _ in range(draw(st.integers(2, 10))):
+        kind = draw(st.sampled_from(['add', 'add', 'add', 'remove']))
+        pool = specs + exts * 2 if kind == 'remove' else specs
+        steps.append([kind, draw(st.sampled_from(pool))])
+    return {'universe': u, 'steps': steps, 'expand': draw(st.sampled_from([None, None, '']))}
+
+
+def history_oracle(case):
+    """Default mode across a history in one process: navigation and relation traversal from an
+    entity stay inside its lexicon's extension family also after lexicons were removed and
+    others added in their place (row ids get reused).  Checked after every step."""
+    import wn
+    u = case['universe']
+    docs = u['lexicons']
+    bydoc = {gen.spec_of(d): d for d in docs}
+    deps = gen.universe_deps(docs)
+    sel = {'lexicon': None, 'lang': None, 'expand': case['expand']}
+    out: list[Disc] = []
+    env.fresh_db()
+    wn.lexicons()
+
+    def check(label):
+        o = _observe(sel, docs)
+        if _raised(o):
+            return
+        before = len(out)
+        membership(o, sorted(o['lexicons']), True, deps, out)
+        for d in out[before:]:
+            d.path = f'{label}{d.path}'
+
+    for i, (kind, spec) in enumerate(case['steps']):
+        installed = {lx.specifier() for lx in wn.lexicons()}
+        if kind == 'add':
+            if spec in installed or (deps.get(spec) and deps[spec] not in installed):
+                continue
+            wn.add_lexical_resource({'lmf_version': u['lmf_version'],
+                                     'lexicons': [bydoc[spec]]}, progress_handler=None)
+        else:
+            if spec not in installed:
+                continue
+            wn.remove(spec, progress_handler=None)
+        check(f'step{i}:{kind}:{spec}')
+        if len(out) > 6:
+            break
+    return out
+
+
+def _history_classify(case):
+    docs = case['universe']['lexicons']
+    deps = gen.universe_deps(docs)
+    tags = ['history']
+    installed = []
+    freed_then_added = False
+    freed = False
+    for kind, spec in case['steps']:
+        if kind == 'add' and spec not in installed and (not deps.get(spec)
+                                                         or deps[spec] in installed):
+            installed.append(spec)
+            if freed and not deps.get(spec):
+                freed_then_added = True
+        elif kind == 'remove' and spec in installed:
+            gone = [spec] + [x for x in _extensions(spec, deps) if x in installed]
+            if installed and installed[-1] in gone and deps.get(spec):
+                freed = True
+                tags.append('history:removed-last-added-extension')
+            installed = [x for x in installed if x not in gone]
+    if freed_then_added:
+        tags.append('history:plain-lexicon-added-after-extension-removed')
+    return len(docs) > 2, tags
+
+
 SUBS = [
+    Sub('default-mode-history', history_oracle, _history_classify,
+        strategy=lambda tier: _history_cases(), budget={'quick': 100, 'thorough': 600},
+        fingerprint=lambda c: fingerprint(c),
+        sample=lambda c: {'lexicons': [gen.spec_of(d) for d in c['universe']['lexicons']],
+                          'steps': c['steps'], 'expand': c['expand']},
+        require_tags=('history:plain-lexicon-added-after-extension-removed',)),
     Sub('scoping', oracle, _classify, strategy=lambda tier: _cases(),
         budget={'quick': 150, 'thorough': 1000}, sample=_sample,
         fingerprint=lambda c: fingerprint([c['universe'], c['selection'], c['outsiders']]),
